@@ -218,11 +218,21 @@ Fixpoint run (s : st) (ops : list op) : st :=
   match ops with [] => s | o :: t => run (snd (step s o)) t end.
 
 (* ---------- executable interface ---------------------------------------------------
-   input : is_client, then ops
-     0 limit | 1 d | 2 q r n | 3 q | 4 | 5 | 6 | 7 q acked | 8 q acked
-   output per op: outcome (0 ok | 1 code | 2 IndexError | 3 drop | 4 ignored), for Send additionally
-     dcid-seq, list of NEW_CONNECTION_ID seqs, list of RETIRE seqs; then the observables
-     cur, rpt, avail list, pend list, hosts as list of seq*2+was_sent, hseq, hcur, closed (0 | 1 code) *)
+   input : is_client, then items
+     0 limit            handshake completion (silent)
+     1 d k f1..fk       one 1-RTT packet addressed to host ID d carrying k frames, f = 2 q r n (NEW_CONNECTION_ID)
+                        | 3 q (RETIRE_CONNECTION_ID) | 9 (any other frame); runs RecvPacket, the frames up to
+                        the first one that does not return OOk, PacketDone.
+                        prints: outcome of the DCID check, outcome of the last frame run (if accepted)
+     10 d k f1..fk      the same, silent
+     5                  change_connection_id(): prints outcome
+     6                  datagrams_to_send: prints 0, dcid-seq, NEW_CONNECTION_ID seqs, RETIRE seqs, obs
+                        (4, obs when closing)
+     11                 the same, silent
+     7 q a | 8 q a      delivery outcome of a RETIRE / NEW_CONNECTION_ID frame (silent)
+     12                 prints obs
+   outcome tokens: 0 ok | 1 code | 2 IndexError | 3 drop | 4 ignored
+   obs: cur, rpt, avail list, pend list, hosts as list of seq*2+was_sent, hseq, hcur, closed (0 | 1 code) *)
 Definition out_outc (o : outc) : list Z :=
   match o with OOk => [0] | OQErr c => [1; c] | OExnIndex => [2] | ODrop => [3] | OIgn => [4] end.
 Definition obs (s : st) : list Z :=
@@ -230,16 +240,37 @@ Definition obs (s : st) : list Z :=
   ++ out_list (map (fun h => 2 * h_seq h + b2z (h_sent h)) (hosts s))
   ++ [hseq s; hcur s] ++ out_opt (closed s).
 
+Definition is_ok (o : outc) : bool := match o with OOk => true | _ => false end.
+
+(* frames of one packet: returns (outcome of the last frame run, state, remaining tokens) *)
+Fixpoint run_frames (k : nat) (s : st) (toks : list Z) (stop : bool) (last : outc) : outc * st * list Z :=
+  match k with O => (last, s, toks) | S k =>
+  match toks with
+  | 2 :: q :: r :: n :: t =>
+      if stop then run_frames k s t true last
+      else let '(o, s') := step s (RecvNewCid q r n) in run_frames k s' t (negb (is_ok o)) o
+  | 3 :: q :: t =>
+      if stop then run_frames k s t true last
+      else let '(o, s') := step s (RecvRetire q) in run_frames k s' t (negb (is_ok o)) o
+  | 9 :: t => run_frames k s t stop last
+  | _ => (last, s, [])
+  end end.
+
+Definition run_packet (s : st) (d k : Z) (toks : list Z) : list Z * st * list Z :=
+  let '(o, s1) := step s (RecvPacket d) in
+  let '(fo, s2, rest) := run_frames (Z.to_nat k) s1 toks (negb (is_ok o)) OOk in
+  let '(_, s3) := step s2 PacketDone in
+  (out_outc o ++ (if is_ok o then out_outc fo else []), s3, rest).
+
 Fixpoint exec_cid_loop (fuel : nat) (s : st) (toks : list Z) : list Z :=
   match fuel with O => [] | S fuel =>
   match toks with
-  | 0 :: l :: t => let '(o, s') := step s (Handshake l) in out_outc o ++ obs s' ++ exec_cid_loop fuel s' t
-  | 1 :: d :: t => let '(o, s') := step s (RecvPacket d) in out_outc o ++ obs s' ++ exec_cid_loop fuel s' t
-  | 2 :: q :: r :: n :: t =>
-      let '(o, s') := step s (RecvNewCid q r n) in out_outc o ++ obs s' ++ exec_cid_loop fuel s' t
-  | 3 :: q :: t => let '(o, s') := step s (RecvRetire q) in out_outc o ++ obs s' ++ exec_cid_loop fuel s' t
-  | 4 :: t => let '(o, s') := step s PacketDone in out_outc o ++ obs s' ++ exec_cid_loop fuel s' t
-  | 5 :: t => let '(o, s') := step s LocalChange in out_outc o ++ obs s' ++ exec_cid_loop fuel s' t
+  | 0 :: l :: t => exec_cid_loop fuel (snd (step s (Handshake l))) t
+  | 1 :: d :: k :: t =>
+      let '(out, s', rest) := run_packet s d k t in out ++ exec_cid_loop fuel s' rest
+  | 10 :: d :: k :: t =>
+      let '(_, s', rest) := run_packet s d k t in exec_cid_loop fuel s' rest
+  | 5 :: t => let '(o, s') := step s LocalChange in out_outc o ++ exec_cid_loop fuel s' t
   | 6 :: t =>
       match closed s with
       | None =>
@@ -247,10 +278,10 @@ Fixpoint exec_cid_loop (fuel : nat) (s : st) (toks : list Z) : list Z :=
           [0; d] ++ out_list news ++ out_list rets ++ obs s' ++ exec_cid_loop fuel s' t
       | Some _ => out_outc OIgn ++ obs s ++ exec_cid_loop fuel s t
       end
-  | 7 :: q :: a :: t =>
-      let '(o, s') := step s (RetireDelivery q (z2b a)) in out_outc o ++ obs s' ++ exec_cid_loop fuel s' t
-  | 8 :: q :: a :: t =>
-      let '(o, s') := step s (NewCidDelivery q (z2b a)) in out_outc o ++ obs s' ++ exec_cid_loop fuel s' t
+  | 11 :: t => exec_cid_loop fuel (snd (step s Send)) t
+  | 7 :: q :: a :: t => exec_cid_loop fuel (snd (step s (RetireDelivery q (z2b a)))) t
+  | 8 :: q :: a :: t => exec_cid_loop fuel (snd (step s (NewCidDelivery q (z2b a)))) t
+  | 12 :: t => obs s ++ exec_cid_loop fuel s t
   | _ => []
   end end.
 
